@@ -845,8 +845,10 @@ catch(G,C,R,Bb) :-
 :- non_counted_backtracking end_block/2.
 
 end_block(Bb, NBb) :-
-    '$clean_up_block'(NBb),
-    '$reset_block'(Bb).
+    % reset the block first: between the two instructions an interrupt may be delivered, and it
+    % must not unwind to the choice point that '$clean_up_block' pops.
+    '$reset_block'(Bb),
+    '$clean_up_block'(NBb).
 end_block(_Bb, NBb) :-
     '$reset_block'(NBb),
     '$fail'.
